@@ -170,6 +170,10 @@ class StoreMachine(Machine):
     def exc_key(self, what, e):
         return '-'
 
+    def o6_view(self, snap):
+        """The part of a snapshot that is the caller's model (not the writer's bookkeeping)."""
+        return snap
+
     def after_write(self, name, cfg, want):
         """Hook: independent scan of the files an acknowledged write produced."""
 
@@ -216,6 +220,21 @@ class StoreMachine(Machine):
                 ctx.digest.add('W', f, ctx.fs.files.get(f))
         else:
             self.ref[name] = {'state': 'torn', 'cfg': cfg, 'files': files}
+            if status == 'ioerr' and self.objs.get(slot) is obj:
+                # the write raised OSError: the caller still holds the model and will write it
+                # again; what it holds must be what it held (O6)
+                from ..globalseam import _same
+                now = self.o6_view(self.snap(obj))
+                want = self.o6_view(want)
+                if not _same(want, now):
+                    try:
+                        self.compare(want, now, cfg, 'O6: the write of %r failed with an '
+                                     'injected %s and left the in-memory model changed'
+                                     % (name, ctx.fs.fired[-1][0]))
+                    except Violation as v:
+                        raise Violation('O6', v.msg)
+                    ctx.probes['O6_snapshot_differs_but_compare_equal'] += 1
+                ctx.probes['O6_object_checked_after_failed_write'] += 1
             if any(ctx.fs.files.get(f) != before.get(f) for f in files):
                 ctx.probes['torn_file_left'] += 1
             ctx.digest.add('W', name, status)
